@@ -84,7 +84,27 @@ fn main() {
                 }
             };
             let start = Instant::now();
-            let rep = engines::run_parent(&id, tier, seed);
+            let mut rep = engines::run_parent(&id, tier, seed);
+            // replay before report (DESIGN §4 rule 5): the first violations are re-executed from their recorded
+            // case in a fresh process; one that does not reproduce is a machinery error, not a verdict
+            let mut kept = Vec::new();
+            for (i, v) in std::mem::take(&mut rep.violations).into_iter().enumerate() {
+                if i < 4 {
+                    let f = scratch::write(&format!("replay_{i}.json"), serde_json::to_string(&serde_json::json!({"case": v.case})).unwrap().as_bytes());
+                    let st = std::process::Command::new(std::env::current_exe().unwrap()).args(["replay", &id, &f]).stdout(std::process::Stdio::null()).stderr(std::process::Stdio::null()).status();
+                    if let Ok(st) = st {
+                        if st.code() == Some(0) {
+                            rep.machinery(format!("violation did not reproduce when replayed in a fresh process: {}", v.what));
+                            continue;
+                        }
+                    }
+                }
+                kept.push(v);
+            }
+            rep.violations = kept;
+            if rep.violations.is_empty() && rep.violation_count > 0 {
+                rep.violation_count = 0;
+            }
             let wall = start.elapsed().as_secs_f64();
             let code = explore::conclude(&root, &meta, tier, seed, wall, &rep);
             scratch::cleanup();
